@@ -156,6 +156,13 @@ def _header_exprs(n):
 def _clears_after(ctx, wfn, wnodes, methods):
     cfg = build_cfg(wfn)
     clear_nodes = guards.call_nodes(cfg, 'clear_func_cache')
+    # a private helper all of whose normal paths reach clear_func_cache counts as the clearing call
+    from .common import unit_functions
+    for h in unit_functions(ctx.prog, wfn)[1:]:
+        hcfg = build_cfg(h)
+        hclear = guards.call_nodes(hcfg, 'clear_func_cache')
+        if hclear and hcfg.exit.id not in hcfg.reachable([hcfg.entry], blocked_nodes=hclear, labels_excluded=('exc',)):
+            clear_nodes = clear_nodes + guards.call_nodes(cfg, h.name)
     # write nodes in the CFG
     wn = []
     for w in wnodes:
